@@ -7,6 +7,7 @@ import Pyunicorn.Lemmas.CircuitK
 import Pyunicorn.Lemmas.CircuitGRat
 import Pyunicorn.Lemmas.CircuitFlow
 import Pyunicorn.Generated.ArithC18
+import Pyunicorn.Generated.StructC18
 /-! # C18 — Resistive-network quantities obey circuit laws
 
 Model: `Pyunicorn/Model/Circuit.lean` (`ResNetwork` in exact rational arithmetic).
@@ -1717,5 +1718,103 @@ theorem diameter_scaling_connected (n : Nat) (adj : Adj) (res R R' : Mat) (k : R
 example : localClustering 3 triAdj (admittance triAdj fun _ _ => 2 * 1) 0
     = (1 / 2) ^ 2 * localClustering 3 triAdj (admittance triAdj fun _ _ => 1) 0 :=
   localClustering_scaling 3 triAdj (fun _ _ => 1) 2 (by norm_num) 0
+
+/-! ## the C kernels and the update methods, regenerated from the source text
+
+`Pyunicorn.Generated.StructC18` is written on every run by `translate/gen_C18.py` from
+`src_numerics.c` (a small C parser: loop nest, `continue` condition, the two accumulation
+statements of each kernel with every subscript checked to be row-major `row*N+col`) and from the
+`ast` of `update_resistances`, `update_admittance`, `update_R`, `__init__`.  The model's kernels are
+proved equal to the loops assembled from the generated pieces, so an edit of a summand, a
+normalisation, the skip condition or a subscript (e.g. a transposed `R[s*N+j]`) breaks this file;
+a changed loop bound or call order changes `vcfbLoops` / `updResCalls` and breaks the `rfl`s. -/
+section source_tie5
+open Pyunicorn.Generated.StructC18
+
+/-- the loop nests as written: `for(t=0;t<N;t++) for(s=0;s<t;s++) … for(j=0;j<N;j++)` and
+`for i<N, for j<N, for t<N, for s<t` -/
+theorem cfb_loops_match_source :
+    vcfbLoops = [("t", "0", "N"), ("s", "0", "t"), ("j", "0", "N")]
+      ∧ ecfbLoops = [("i", "0", "N"), ("j", "0", "N"), ("t", "0", "N"), ("s", "0", "t")] :=
+  ⟨rfl, rfl⟩
+
+/-- the model of the vertex kernel is the loop nest of `vcfbLoops` around the generated skip
+condition, summand and normalisation -/
+theorem vcfbKernel_matches_source (n : Nat) (Is It : Rat) (adm R : Mat) (i : Nat) :
+    vcfbKernel n Is It adm R i
+      = (List.range n).foldl (fun vcfb t =>
+          (List.range t).foldl (fun vcfb s =>
+            if vcfbSkip i t s = true then vcfb
+            else vcfb + vcfbNorm ((List.range n).foldl (fun J j =>
+              J + vcfbTerm Is It (adm i j) (R i s) (R j s) (R j t) (R i t)) 0) (n : Int)) vcfb) 0 := by
+  unfold vcfbKernel vcfbSkip vcfbNorm vcfbTerm
+  simp only [decide_eq_true_eq, natpair_cast]
+  rfl
+
+theorem ecfbKernel_matches_source (n : Nat) (Is It : Rat) (adm R : Mat) (i j : Nat) :
+    ecfbKernel n Is It adm R i j
+      = ecfbNorm ((List.range n).foldl (fun J t =>
+          (List.range t).foldl (fun J s =>
+            J + ecfbTerm Is It (adm i j) (R i s) (R j s) (R j t) (R i t)) J) 0) (n : Int) := by
+  unfold ecfbKernel ecfbNorm ecfbTerm
+  simp only [natpair_cast]
+  rfl
+
+/-- one `self.<method>()` call of `update_resistances` on the model state -/
+def execCall (pinv : Nat → Mat → LMat) (s : State) : Call → Option State
+  | .update_admittance => some (step pinv s .updAdm).1
+  | .update_R => some (step pinv s .updR).1
+  | .other _ => none
+
+def execCalls (pinv : Nat → Mat → LMat) : State → List Call → Option State
+  | s, [] => some s
+  | s, c :: cs => (execCall pinv s c).bind fun s' => execCalls pinv s' cs
+
+/-- **`update_resistances` as written**: setting the property and then running the calls listed
+in the regenerated `updResCalls` (today `update_admittance()`, `update_R()`) gives the model's
+`State.update`.  A reordered, dropped or conditional call falsifies this. -/
+theorem update_body_matches_source (pinv : Nat → Mat → LMat) (s : State) (r : Mat) :
+    updResSetsProperty = true
+      ∧ execCalls pinv { s with res := r } updResCalls = some (s.update pinv r) := by
+  exact ⟨rfl, rfl⟩
+
+/-- the filling loop of `update_admittance` runs over `edge_list()` — the *links* — and reads
+`resistances` at the subscripts it writes (or the transposed ones: the same value on the symmetric
+matrices of the property); `admittance_offlink` is the consequence -/
+theorem admittance_loop_matches_source :
+    admLoopOver = "self.edge_list()" ∧ admTargetIndex = ["edge[0]", "edge[1]"]
+      ∧ (admValueIndex = admTargetIndex ∨ admValueIndex = admTargetIndex.reverse) :=
+  ⟨rfl, rfl, Or.inl rfl⟩
+
+/-- `update_R`: pseudo-inverse of `admittance_lapacian()`, then the store is dropped; `__init__`
+ends with `update_resistances(resistances)` and an empty store — the shape of `State.update`,
+`step … .updR` and `State.init` -/
+theorem updR_init_match_source (pinv : Nat → Mat → LMat) (n : Nat) (adj : Adj) (res : Mat) :
+    updRInput = "self.admittance_lapacian()" ∧ updRResetsStore = true
+      ∧ initCallsUpdate = true ∧ initStoreNone = true
+      ∧ (State.init pinv n adj res).store = none
+      ∧ ∀ s : State, (step pinv s .updR).1.store = none :=
+  ⟨rfl, rfl, rfl, rfl, rfl, fun _ => rfl⟩
+
+/-- the singular-value cut-off handed to `np.linalg.pinv` is `N · eps` of *double* precision; for
+every size below `2^29` it stays below the float32 unit round-off `2^-23` (the seeded changes
+C18-1 / C18-5 put a float32 `eps` here, which discards genuine small Laplacian eigenvalues) -/
+theorem rcond_matches_source :
+    rcondEpsType = "float" ∧ (∀ (N : Nat) (eps : Rat), rcondExpr N eps = N * eps)
+      ∧ ∀ N : Nat, N < 2 ^ 29 → rcondExpr N (1 / 2 ^ 52) < 1 / 2 ^ 23 := by
+  refine ⟨rfl, fun _ _ => rfl, fun N hN => ?_⟩
+  unfold rcondExpr
+  have h : (N : Rat) < 2 ^ 29 := by exact_mod_cast hN
+  rw [mul_one_div, div_lt_div_iff₀ (by positivity) (by positivity)]
+  calc (N : Rat) * 2 ^ 23 < 2 ^ 29 * 2 ^ 23 := by
+        exact mul_lt_mul_of_pos_right h (by positivity)
+    _ = 1 * 2 ^ 52 := by norm_num
+
+example (pinv : Nat → Mat → LMat) (r : Mat) :
+    execCalls pinv { (State.init pinv 3 chainAdj unitRes) with res := r } [.update_admittance, .update_R]
+      = some ((State.init pinv 3 chainAdj unitRes).update pinv r) :=
+  (update_body_matches_source pinv _ r).2
+
+end source_tie5
 
 end Pyunicorn.Circuit
